@@ -75,11 +75,15 @@ def run(ctx):
            what="get_prev_documents_bytes no longer returns the stored input bytes")
     nf = F.fn("Document::new_from_prev")
     sets = lib.dict_sets(nf)
-    okn = any(k == b"Prev" and "xref_start" in nf.oname(v, 5) for k, v, c in sets)
+    def SN(o, d=8):
+        # structural rendering: single-assignment locals are looked through, the parameter shows as arg1
+        with nf.alpha(args=True):
+            return nf.sname(o, d)
+    okn = any(k == b"Prev" and "arg1.xref_start" in SN(v) for k, v, c in sets)
     ctx.ob("R-ORDER", "prev-points-back", okn, "new_from_prev sets Prev from prev.xref_start", nf.where(), what="new_from_prev no longer sets /Prev to the previous document's xref_start")
     lits = list(lib.struct_literals(nf, "Document"))
-    okm = len(lits) == 1 and "max_id" in nf.oname(lits[0][2]["max_id"], 3) and "prev" in nf.oname(lits[0][2]["max_id"], 3)
-    okt = len(lits) == 1 and "cross_reference_type" in nf.oname(lits[0][2]["reference_table"], 5)
+    okm = len(lits) == 1 and re.search(r"^\*?arg1\.max_id$", SN(lits[0][2]["max_id"])) is not None
+    okt = len(lits) == 1 and "arg1.reference_table.cross_reference_type" in SN(lits[0][2]["reference_table"])
     ctx.ob("R-ORDER", "prev-max_id-carried", okm, "the new document continues numbering at prev.max_id", nf.where(), what="new_from_prev does not carry max_id: new objects of the update would collide with existing object numbers")
     ctx.ob("R-ORDER", "prev-xref-type-carried", okt, "the update uses the previous cross-reference type", nf.where(), what="new_from_prev does not carry the cross-reference type of the previous revision")
     # 4. previous view immutable
